@@ -1,6 +1,9 @@
 package main
 
 import (
+	"go/types"
+	"strings"
+
 	"golang.org/x/tools/go/ssa"
 )
 
@@ -80,4 +83,83 @@ func ruleR5(c *Ctx, id string) {
 	}
 	R.Check(last && barrier, id, "nfs.makeFs|marker written last, after a barrier", P.Pos(marker.Pos()), "the raw write of the root inode (the 'formatted' marker) is the last raw write of mkfs and is preceded by a barrier", "ordered", "the marker is written first and without barrier: a crash during mkfs leaves a disk that looks formatted but has empty bitmaps and no root directory (after restart the first CREATE is handed inode 1, the locked root, and never returns)")
 	R.Pass(id, "nfs.MakeNfs|format path identified", P.Pos(mk.Pos()), "format path found", "makeFs under root Kind == 0")
+}
+
+// ruleDiskWrapper: a type of go-nfsd that wraps a disk.Disk and is itself used
+// as the disk (the timing wrapper installed by cmd/go-nfsd -stats) must hand
+// every operation of the interface on to the wrapped disk - the barrier above
+// all: the journal's durability rests on it.
+func ruleDiskWrapper(c *Ctx, id string) {
+	P, R := c.P, c.R
+	R.Rule(id, "disk decorators delegate: every method of the disk.Disk interface implemented by a go-nfsd type that wraps a disk.Disk calls the same operation of the wrapped disk on every path (Barrier in particular)", 5)
+	var iface *types.Interface
+	for _, pk := range P.All {
+		if strings.HasSuffix(pk.PkgPath, "/primitive/disk") && pk.Types != nil {
+			if o := pk.Types.Scope().Lookup("Disk"); o != nil {
+				iface, _ = o.Type().Underlying().(*types.Interface)
+			}
+		}
+	}
+	if iface == nil {
+		R.Fail(id, "disk.Disk|interface", "?", "the disk interface is found", "UNRESOLVED-ANCHOR disk.Disk")
+		return
+	}
+	n := 0
+	for _, pk := range P.Pkgs {
+		if pk.Types == nil {
+			continue
+		}
+		for _, name := range pk.Types.Scope().Names() {
+			tn, ok := pk.Types.Scope().Lookup(name).(*types.TypeName)
+			if !ok {
+				continue
+			}
+			st, ok := tn.Type().Underlying().(*types.Struct)
+			if !ok {
+				continue
+			}
+			ptr := types.NewPointer(tn.Type())
+			if !types.Implements(ptr, iface) && !types.Implements(tn.Type(), iface) {
+				continue
+			}
+			wrapped := ""
+			for i := 0; i < st.NumFields(); i++ {
+				if isDiskIface(st.Field(i).Type()) {
+					wrapped = st.Field(i).Name()
+				}
+			}
+			if wrapped == "" {
+				continue
+			}
+			for i := 0; i < iface.NumMethods(); i++ {
+				m := iface.Method(i)
+				sel := P.Prog.MethodSets.MethodSet(ptr).Lookup(m.Pkg(), m.Name())
+				if sel == nil {
+					continue
+				}
+				fn := P.Prog.MethodValue(sel)
+				if fn == nil || fn.Blocks == nil || !IsRepoFunc(fn) {
+					continue
+				}
+				n++
+				R.Analysed[FuncName(fn)] = true
+				family := map[string]bool{m.Name(): true}
+				if m.Name() == "Read" || m.Name() == "ReadTo" {
+					family["Read"], family["ReadTo"] = true, true
+				}
+				deleg := P.NewAlways(func(in ssa.Instruction) bool {
+					cc := callCommon(in)
+					if cc == nil || !cc.IsInvoke() || !family[cc.Method.Name()] {
+						return false
+					}
+					_, fl, _, _ := loadedField(cc.Value)
+					return fl == wrapped
+				})
+				R.Check(deleg.Func(fn), id, FuncName(fn)+"|delegates to the wrapped disk", P.Pos(fn.Pos()), "every path of the method performs the same operation on the wrapped disk", "always-performs summary", "the decorator swallows "+m.Name()+": with the wrapper installed the real disk never sees it (a dropped Barrier makes every acknowledged write volatile)")
+			}
+		}
+	}
+	if n == 0 {
+		R.Pass(id, "disk decorators|none", "?", "no go-nfsd type wraps a disk.Disk", "nothing to check")
+	}
 }
